@@ -30,6 +30,11 @@ def closure_args_of(prog, b, callee_names):
                 for s in sources(an, a):
                     if s[0] == 'closure' and s[1] in prog.bodies:
                         out.append((blk, prog.bodies[s[1]]))
+                # a function of the crate passed by name does the same job as a closure
+                if a.kind == 'const' and a.const.get('fn'):
+                    for k in ('rfn', 'fn'):
+                        if a.const.get(k) in prog.bodies:
+                            out.append((blk, prog.bodies[a.const[k]])); break
     return out
 
 
@@ -137,6 +142,14 @@ def run(ctx):
                 esc = can.reach([arms[lab]], ('normal',), avoid=tk + other)
                 if any(e in esc for e in rets):
                     okarms = False
+        if not sws:
+            # the same without a match: `lock().unwrap_or_else(PoisonError::into_inner)` yields the guard in both cases
+            tk = [blk.idx for b, blk in takers if b.path == cb.path]
+            rec = [blk for blk in cb.blocks if blk.term.kind == 'call' and not blk.cleanup and blk.term.callee_names() & {'std::result::Result::unwrap_or_else'} and
+                   any(a.kind == 'const' and a.const.get('fn') and strip_generics(a.const['fn']).endswith('PoisonError::into_inner') for a in blk.term.args) and
+                   any(s_[0] == 'call' and s_[1] == 'std::sync::Mutex::lock' for s_ in sources(can, blk.term.args[0]))]
+            esc = can.reach([0], ('normal',), avoid=tk)
+            okarms = len(rec) == 1 and bool(tk) and not any(e in esc for e in can.exits()['return'])
         ctx.ob('R14.2', 'the value is destroyed on both the Ok and the poisoned arm of the lock', okarms, ctx.where(cb), '', construct='drop:both-arms')
         # the drop body itself holds no T-carrying local other than the Arc clone it moves into the closure
         dan = prog.an(drop_b)
